@@ -308,7 +308,15 @@ RESULT_REASON = {
     18: 'EncodingOptionError', 19: 'KeyValueNotPresent',
     20: 'AttestationRequired', 21: 'AttestationFailed', 22: 'Sensitive',
     23: 'NotExtractable', 24: 'ObjectAlreadyExists', 0x100: 'GeneralFailure',
+    # KMIP 2.0 additions (0x19 .. 0x4B)
+    0x19: 'InvalidTicket', 0x1A: 'UsageLimitExceeded', 0x1B: 'NumericRange',
+    0x1C: 'InvalidDataType', 0x1D: 'ReadOnlyAttribute',
+    0x1E: 'MultiValuedAttribute', 0x1F: 'UnsupportedAttribute',
+    0x20: 'AttributeInstanceNotFound', 0x21: 'AttributeNotFound',
+    0x22: 'AttributeReadOnly', 0x23: 'AttributeSingleValued',
 }
+for _v in range(0x24, 0x4C):
+    RESULT_REASON.setdefault(_v, 'Kmip20Reason%02X' % _v)
 REASON = dict((v, k) for k, v in RESULT_REASON.items())
 OPERATION = {
     1: 'Create', 2: 'CreateKeyPair', 3: 'Register', 4: 'Rekey', 5: 'DeriveKey',
